@@ -312,6 +312,10 @@ func runC05(res *Result, tier string, seed int64, replay string) {
 				docs = append(docs, doc{"social-names:" + nm, "<mjml><mj-body><mj-section><mj-column><mj-social>" + b + "</mj-social><mj-social mode=\"vertical\">" + b + "</mj-social></mj-column></mj-section></mj-body></mjml>", nil})
 			}
 		}
+		// inline rules for class names one of which is a prefix of the other, listed in both orders on components and in author HTML
+		docs = append(docs, doc{"inline:prefix-class-names", `<mjml><mj-head><mj-style inline="inline">.note { color:#333333; font-size:13px; } .note-big { font-size:18px; } .n { margin:0; }</mj-style></mj-head><mj-body><mj-section><mj-column>` +
+			`<mj-text css-class="note-big note">a</mj-text><mj-text css-class="note note-big n">b</mj-text><mj-text><p class="note-big note n">c</p><p class="n note note-big">d</p></mj-text>` +
+			`<mj-button href="u" css-class="n note-big note">e</mj-button><mj-raw><i class="note-big n note">f</i></mj-raw></mj-column></mj-section></mj-body></mjml>`, nil})
 		// the same web font declared twice (a head partial included twice), next to other declared and built-in fonts
 		for k, head := range []string{
 			`<mj-font name="Dup" href="https://f.example/dup.css"/><mj-font name="Dup" href="https://f.example/dup.css"/><mj-font name="Other" href="https://f.example/other.css"/>`,
@@ -557,6 +561,10 @@ func isoClasses() []isoClass {
 			doc(`<mj-head><mj-style inline="inline">.ka { color: #123456; } .kb { color: #ff0000; }</mj-style></mj-head>`)},
 		// font stacks that begin alike and name another web font further on (or none): whatever a compilation remembers about a
 		// stack must be about the whole stack
+		// the same author HTML start tag (a class and a style attribute of its own) under different inline rules: whatever is
+		// remembered about a tag's text must not carry another compilation's declarations
+		{"inline-rule-on-styled-author-tag", strings.Replace(doc(`<mj-head><mj-style inline="inline">.ka { color: red; }</mj-style></mj-head>`), `<mj-divider/>`, `<mj-text><p class="ka" style="margin:0 0 3px 7px">x</p><span class="ka" style="top:1px">y</span></mj-text><mj-raw><i class="ka" style="left:0">z</i></mj-raw>`, 1),
+			strings.Replace(doc(`<mj-head><mj-style inline="inline">.ka { color: teal; font-weight: bold; }</mj-style></mj-head>`), `<mj-divider/>`, `<mj-text><p class="ka" style="margin:0 0 3px 7px">x</p><span class="ka" style="top:1px">y</span></mj-text><mj-raw><i class="ka" style="left:0">z</i></mj-raw>`, 1)},
 		{"font-stack-lead", strings.NewReplacer(`<mj-text css-class="ka">`, `<mj-text css-class="ka" font-family="Arial, Roboto, sans-serif">`, `<mj-button mj-class="m1"`, `<mj-button mj-class="m1" font-family="Helvetica, Montserrat"`).Replace(doc("")),
 			strings.NewReplacer(`<mj-text css-class="ka">`, `<mj-text css-class="ka" font-family="Arial, Lato, sans-serif">`, `<mj-button mj-class="m1"`, `<mj-button mj-class="m1" font-family="Helvetica, sans-serif"`).Replace(doc(""))},
 		{"font-stack-tail", strings.NewReplacer(`<mj-text css-class="ka">`, `<mj-text css-class="ka" font-family="Roboto, Arial">`).Replace(doc("")),
